@@ -26,7 +26,10 @@ ASSUMPTIONS = ['friction factor, velocity and density are the static values the 
                'step-size independence follows from additivity in dz (proved) and sum(dz) = L (C05)']
 NOT_DECIDED = ['text tables that print the pressure drop (formatting)']
 BOUNDED = ['runtime.gravity_head[*]: generated assemblies (pin bundle + single-node + six-node regions, double duct) with '
-           'include_gravity_head_loss on / off: the gravity part of the reported pressure drop is rho g L (constant density)']
+           'include_gravity_head_loss on / off: the gravity part of the reported pressure drop is rho g L (constant density)',
+           'runtime.grid_charged_once[*]: generated bundles with spacer grids in ascending / descending / shuffled order, two '
+           'in one step, twice at one position, on the core inlet, on the bundle bounds, outside the bundle: the spacer-grid '
+           'part of a whole sweep is one loss per accepted grid']
 G = 9.80665
 
 
@@ -177,10 +180,61 @@ def assembly(S, cfg):
 assembly.cname = 'Assembly.update_region'
 
 
+def grids(S, cfg):
+    """two grids anywhere in the bundle, listed in either order, and two consecutive steps (za, zb], (zb, zc] through the
+    real calculate_pressure_drop: the spacer-grid part grows by one loss for every grid in (za, zc] - also when both lie
+    in the same step or at the same position - and, when za is the lower bound of the bundle (first step), for a grid
+    exactly on that bound (the reader keeps positions z_lo <= g <= z_hi)."""
+    rr = make_rodded(S, n_ring=2, n_duct=1)
+    set_int_params(S, rr)
+    K = S.pos('K', 0.5, 2.0)
+    vel = S.pos('vel', 1.0, 8.0)
+    rr.coolant_int_params['grid_loss_coeff'] = K
+    rr.coolant_int_params['vel'] = vel
+    rr.coolant_int_params['ff'] = S.pos('ff', 0.01, 0.05)
+    rr._gravity = False
+    z_lo = S.nonneg('z_lo', 0.0, 0.3)
+    rr.z = [z_lo, z_lo + S.pos('L_bundle', 1.0, 2.0)]
+    first = cfg['first']
+    if first:
+        za = z_lo
+    else:
+        below = S.pos('below', 0.05, 0.3)
+        # planes lie on the 1e-12 m grid (C05): a step's lower edge is the bundle's lower bound or lies at least one
+        # grid unit above it; the code tells the two apart with a tolerance of half a unit
+        S.assume(below >= 1e-12, 'a later step starts at least one grid unit (1e-12 m) above the bundle bound')
+        za = z_lo + below
+    d1 = S.pos('d1', 0.002, 0.01)
+    d2 = S.pos('d2', 0.002, 0.01)
+    S.assume(d1 >= 1e-12, 'steps are at least one grid unit (C05: strict progress on the 1e-12 m grid)')
+    S.assume(d2 >= 1e-12, 'steps are at least one grid unit')
+    zb = za + d1
+    zc = zb + d2
+    g = [z_lo + S.nonneg(f'g{i}', 0.0, 0.7) for i in range(2)]     # in the bundle (the reader's guarantee)
+    if cfg.get('same'):
+        g[1] = g[0]
+    rr.corr_constants['grid'] = {'z': list(g), 'n': 2}
+    loss = K * rr.coolant.density * vel * vel / 2
+    rr._pressure_drop = {'friction': 0 * loss, 'spacer_grid': 0 * loss, 'gravity': 0 * loss}
+    rr.calculate_pressure_drop(zb, d1)
+    rr.calculate_pressure_drop(zc, d2)
+    count = 0
+    for gi in g:
+        if gi <= zc and (gi > za or (first and gi <= za)):
+            count += 1
+    S.eq('grids.each_charged_once', rr._pressure_drop['spacer_grid'], count * loss)
+    S.eq('canary.grids_charged_per_step', rr._pressure_drop['spacer_grid'], (1 if count else 0) * loss, canary=True)
+
+
+grids.cname = 'RoddedRegion.calculate_pressure_drop/two-grids'
+grids.run_kw = dict(pool_size=12, max_paths=400, check_div=False)
+
+
 def configs(tier):
     out = [(rodded, dict(gravity=True)), (rodded, dict(gravity=False)),
            (grid, dict(where='first')), (grid, dict(where='second')), (grid, dict(where='on_plane')),
            (grid, dict(where='any')),
+           (grids, dict(first=True)), (grids, dict(first=False)), (grids, dict(first=True, same=True)),
            (unrodded, dict(model='simple')), (unrodded, dict(model='6node')),
            (unrodded, dict(model='simple', gravity=False)), (unrodded, dict(model='6node', gravity=False)),
            (assembly, dict())]
@@ -229,6 +283,44 @@ def _gravity_case(args):
         shutil.rmtree(wd, ignore_errors=True)
 
 
+# bounded: every spacer grid the reader accepts is charged exactly once by a whole sweep
+_UR = [('lower', 0.0, 0.3, 'simple'), ('upper', 0.8, 1.0, 'simple')]
+GRIDS = {
+    'one': dict(grid=[0.5]),
+    'descending': dict(grid=[0.75, 0.5, 0.25]),
+    'max_not_last': dict(grid=[0.625, 0.125, 0.875, 0.375]),
+    'two_in_one_step': dict(grid=[0.5012, 0.5037]),
+    'same_position_twice': dict(grid=[0.5, 0.5]),
+    'on_core_inlet': dict(grid=[0.0, 0.5]),
+    'on_bundle_lower_bound': dict(grid=[0.3, 0.5], unrodded=_UR),
+    'on_bundle_upper_bound': dict(grid=[0.8, 0.5], unrodded=_UR),
+    'outside_bundle_skipped': dict(grid=[0.1, 0.5, 0.9], unrodded=_UR, _expect=1),
+}
+
+
+def _grid_case(name):
+    import os
+    import shutil
+    import sys
+    import tempfile
+    sys.path.insert(0, os.environ.get('DASSH_REPO', '/repo'))
+    from pvc import geninput as Gn
+    wd = tempfile.mkdtemp(prefix='c14g_')
+    try:
+        kw = {k: v for k, v in GRIDS[name].items() if not k.startswith('_')}
+        inp, r = Gn.build(Gn.write_problem(wd, gap_model='none', asms={'a1': kw}), sweep=True)
+        rr = r.assemblies[0].rodded
+        one = 1.2 * rr.coolant.density * rr.coolant_int_params['vel'] ** 2 / 2      # constant properties, loss_coeff 1.2
+        got = float(rr._pressure_drop['spacer_grid'])
+        want = GRIDS[name].get('_expect', len(kw['grid']))
+        ok = abs(got - want * one) <= 1e-9 * max(1.0, want * one)
+        return name, ok, f'spacer-grid pressure drop {got!r} Pa = {got / one:.6f} grid losses, expected {want} (positions {kw["grid"]}, bundle {rr.z})'
+    except BaseException as e:
+        return name, False, f'{type(e).__name__}: {e}'
+    finally:
+        shutil.rmtree(wd, ignore_errors=True)
+
+
 def extra_checks(tier, seed):
     import multiprocessing as mp
     import time
@@ -236,19 +328,30 @@ def extra_checks(tier, seed):
     jobs = [(n, on) for n in RUNTIME for on in (True, False)]
     with mp.get_context('fork').Pool(10) as pool:
         out = pool.map(_gravity_case, jobs, chunksize=1)
+        gout = pool.map(_grid_case, list(GRIDS), chunksize=1)
     secs = time.time() - t0
     results = []
+    for name, ok, d in gout:
+        results.append(dict(name=f'runtime.grid_charged_once[{name}]', status='proved' if ok else 'refuted',
+                            backend='bounded:run-time contract', seconds=secs / (len(out) + len(gout)), detail=d,
+                            witness=dict(values=dict(grid_case=name)),
+                            replay=dict(reproduced=not ok, point=dict(values=dict(grid_case=name)), native=d)))
     for name, on, ok, d in out:
         results.append(dict(name=f'runtime.gravity_head[{name},{"on" if on else "off"}]', status='proved' if ok else 'refuted',
                             backend='bounded:run-time contract', seconds=secs / len(out), detail=d, sample=(name == 'sixnode_regions' and on),
                             witness=dict(values=dict(case=name, on=on)),
                             replay=dict(reproduced=not ok, point=dict(values=dict(case=name, on=on)), native=d)))
     return [dict(name='gravity option end to end (run-time contracts)', results=results,
-                 notes=['BOUNDED: runtime.gravity_head[*] on generated single-assembly problems'])]
+                 notes=['BOUNDED: runtime.gravity_head[*] and runtime.grid_charged_once[*] on generated single-assembly problems'])]
 
 
 def replay(doc):
     w = (doc.get('witness') or {}).get('values') or {}
+    if w.get('grid_case') in GRIDS:
+        name, ok, d = _grid_case(w['grid_case'])
+        print('replay:', name, d)
+        print('not reproduced' if ok else 'REPRODUCED')
+        return 0 if ok else 1
     if w.get('case') not in RUNTIME:
         print('replay: symbolic obligation - re-run ./check C14')
         return 0
